@@ -371,9 +371,76 @@ class Run:
                 self.mismatches.append((c, m, prelude, epilogue))
             self.drifts += r["drifts"]
         self.cases += cases
+        self.last_conform = {"module": module, "cfg": cfg, "events": [ep for (sp, ep, index, chunk) in jobs], "xmx": xmx, "timeout": timeout}
         for c in cases:
             if len(self.samples) < 4:
                 self.samples.append(c.desc)
+
+    # -- demonstration of the binding (./check <id> --selftest; not a registered command)
+    def selftest(self, per_shard=12):
+        """Corrupts recorded results of the last conformance run (one scalar per chosen event: an integer + 1, a boolean
+        flipped) and validates the corrupted traces: the specification has to reject events it accepted before.  Prints
+        one SELFTEST line; exit 0 when at least a third of the corrupted events are reported."""
+        lc = getattr(self, "last_conform", None)
+        if not lc:
+            raise ToolError("no conformance run to corrupt")
+
+        def corrupt(v):
+            # depth-first: the first boolean or integer leaf
+            if isinstance(v, bool):
+                return (not v), True
+            if isinstance(v, int):
+                return v + 1, True
+            if isinstance(v, list):
+                for i, x in enumerate(v):
+                    y, ok = corrupt(x)
+                    if ok:
+                        return v[:i] + [y] + v[i + 1:], True
+            if isinstance(v, dict):
+                for k in v:
+                    if k in ("ms", "peak", "residual"):      # measurements, not results
+                        continue
+                    y, ok = corrupt(v[k])
+                    if ok:
+                        return dict(v, **{k: y}), True
+                if isinstance(v.get("outcome"), str):        # nothing else to damage: the outcome itself
+                    return dict(v, outcome="crash"), True
+            return v, False
+        corrupted, reported = 0, 0
+        for ep in lc["events"][:3]:
+            lines = [json.loads(x) for x in open(ep)]
+            step = max(1, len(lines) // per_shard)
+            touched = set()
+            for i in range(0, len(lines), step):
+                if "res" in lines[i]:
+                    new, ok = corrupt(lines[i]["res"])
+                    if ok:
+                        lines[i]["res"] = new
+                        touched.add(i + 1)
+            cp = ep + ".selftest"
+            open(cp, "w").write("\n".join(json.dumps(x, separators=(",", ":")) for x in lines) + "\n")
+            hit = set()
+            cur = cp
+            for attempt in range(8):
+                try:
+                    r = tlc_trace(lc["module"], lc["cfg"], cur, timeout=lc["timeout"], xmx=lc["xmx"])
+                    hit |= {m["l"] for m in r["mismatches"]} | {b["l"] for b in r["badcases"]}
+                    break
+                except ToolError as e:
+                    at = re.findall(r"^/\\ l = (\d+)\s*$", getattr(e, "out", "") or "", re.M)
+                    if not at:
+                        raise
+                    # the corrupted event cannot even be evaluated: rejected; neutralise it and go on
+                    L = int(at[-1])
+                    hit.add(L)
+                    ls = open(cur).read().splitlines()
+                    ls[L - 1] = json.dumps({"op": "mark", "res": {"outcome": "mark"}})
+                    cur = cp + ".%d" % attempt
+                    open(cur, "w").write("\n".join(ls) + "\n")
+            corrupted += len(touched)
+            reported += len(touched & hit) + len({x for x in hit if x not in touched and any(abs(x - t) <= 3 for t in touched)})
+        print("SELFTEST property=%s corrupted=%d reported=%d" % (self.prop, corrupted, min(reported, corrupted)))
+        return 0 if corrupted and reported * 3 >= corrupted else 1
 
     # -- verdict
     def finish(self):
